@@ -6,6 +6,7 @@
   `|U| × |U|` and free of ∞, so the identity matrix is a unit for it; `Cmd.rename`).
 -/
 import Mwp.Lemmas.Misc12
+import Mwp.Lemmas.Invariance
 namespace Mwp.Props.C12
 open Mwp Mwp.Spec Mwp.Misc12
 
@@ -72,5 +73,104 @@ example : Function.Injective swapXY := by
   rw [← inv a, ← inv b, h]
 example : sem (["x", "y"].map swapXY) ((Cmd.bin "+" "x" (.var "x") (.var "y")).rename swapXY) 0 [0]
     = some (1, [[.m, .o], [.p, .m]]) := by decide
+
+/-! ## the invariances lifted to the MODEL of the analysis (`Analysis.func`)
+    (Mwp/Lemmas/Invariance.lean; side condition `Refine.FuncOk`, see Props/C02) -/
+
+/-- The verdict of the analysis depends only on the calculus reading of the function: two
+    supported functions that `desugarFunc` reads as the same command — whatever their layout
+    (do-while vs while, casts, labels, parameter lists, …) — are both analysed successfully and get
+    the same verdict, in any two modes. -/
+theorem verdict_depends_only_on_reading (n1 n2 : Node) (hok1 : Refine.FuncOk n1 = true)
+    (hok2 : Refine.FuncOk n2 = true) (cmd : Cmd) (hd1 : desugarFunc n1 = some cmd)
+    (hd2 : desugarFunc n2 = some cmd) (s1 s2 : Bool) :
+    (∀ r1 r2, Analysis.func n1 s1 = .ok r1 → Analysis.func n2 s2 = .ok r2 →
+      r1.infinite = r2.infinite) ∧
+    ∃ r1 r2, Analysis.func n1 s1 = .ok r1 ∧ Analysis.func n2 s2 = .ok r2 ∧
+      r1.infinite = r2.infinite :=
+  ⟨fun r1 r2 h1 h2 => Mwp.verdict_depends_only_on_reading n1 n2 hok1 hok2 cmd hd1 hd2 s1 s2 r1 r2 h1 h2,
+    Mwp.verdict_depends_only_on_reading_total n1 n2 hok1 hok2 cmd hd1 hd2 s1 s2⟩
+
+/-- The verdict is invariant under injective renaming of the variables.  `hvars`: the renamed
+    function has no variable beyond the images of the variables of the original. -/
+theorem verdict_invariant_under_renaming (ρ : String → String) (hρ : Function.Injective ρ)
+    (n1 n2 : Node) (hok1 : Refine.FuncOk n1 = true) (hok2 : Refine.FuncOk n2 = true) (cmd : Cmd)
+    (hd1 : desugarFunc n1 = some cmd) (hd2 : desugarFunc n2 = some (cmd.rename ρ))
+    (vs1 vs2 : List String) (hvs1 : Syntax.variables n1 = .ok vs1)
+    (hvs2 : Syntax.variables n2 = .ok vs2) (hvars : ∀ v ∈ vs2, ∃ u ∈ vs1, ρ u = v) (s1 s2 : Bool) :
+    (∀ r1 r2, Analysis.func n1 s1 = .ok r1 → Analysis.func n2 s2 = .ok r2 →
+      r1.infinite = r2.infinite) ∧
+    ∃ r1 r2, Analysis.func n1 s1 = .ok r1 ∧ Analysis.func n2 s2 = .ok r2 ∧
+      r1.infinite = r2.infinite :=
+  ⟨fun r1 r2 h1 h2 => Mwp.verdict_invariant_under_renaming ρ hρ n1 n2 hok1 hok2 cmd hd1 hd2 vs1 vs2
+      hvs1 hvs2 hvars s1 s2 r1 r2 h1 h2,
+    Mwp.verdict_invariant_under_renaming_total ρ hρ n1 n2 hok1 hok2 cmd hd1 hd2 vs1 vs2
+      hvs1 hvs2 hvars s1 s2⟩
+
+/-- Two supported functions with the same reading and the same reported variable list, both
+    reported finite, report the same set of matrices. -/
+theorem derivable_matrices_depend_only_on_reading (n1 n2 : Node) (hok1 : Refine.FuncOk n1 = true)
+    (hok2 : Refine.FuncOk n2 = true) (cmd : Cmd) (hd1 : desugarFunc n1 = some cmd)
+    (hd2 : desugarFunc n2 = some cmd) (s1 s2 : Bool) (r1 r2 : Analysis.FuncRes)
+    (h1 : Analysis.func n1 s1 = .ok r1) (h2 : Analysis.func n2 s2 = .ok r2)
+    (hf1 : r1.infinite = false) (hf2 : r2.infinite = false) (hU : r1.variables = r2.variables)
+    (rel1 rel2 : Relation) (hr1 : r1.relation = some rel1) (hr2 : r2.relation = some rel2)
+    (ch1 ch2 : Choices.T) (hc1 : r1.choices = some ch1) (hc2 : r2.choices = some ch2) (M : SMat) :
+    (∃ c : Choice, c.length = cmd.arity ∧ (∀ v ∈ c, v < 3) ∧ Choices.isValid ch1 c = true ∧
+        rel1.applyChoice c = M) ↔
+    (∃ c : Choice, c.length = cmd.arity ∧ (∀ v ∈ c, v < 3) ∧ Choices.isValid ch2 c = true ∧
+        rel2.applyChoice c = M) :=
+  Mwp.derivable_matrices_depend_only_on_reading n1 n2 hok1 hok2 cmd hd1 hd2 s1 s2 r1 r2 h1 h2
+    hf1 hf2 hU rel1 rel2 hr1 hr2 ch1 ch2 hc1 hc2 M
+
+/-! non-vacuity: `int f(int x,int y){ while (x<10) { x = y + y; } }`  and
+    `int f(int x,int y,int unused){ do { L: x = (int)((int)y + y); } while (x<10); }` have the same
+    reading (and different variable lists); `int f(int y,int x){ while (y<10) { y = x + x; } }` is
+    the first one renamed by the swap of `x` and `y` -/
+
+private def fnP (params : List String) (body : List Node) : Node :=
+  .funcDef (.decl (some "f") (.funcDecl (some (.paramList
+    (params.map fun p => .decl (some p) .typeDecl none)))) none) (.compound (some body))
+private def progA : Node := fnP ["x", "y"] [.while_ (.binop "<" (.id "x") (.const "int" "10"))
+  (.compound (some [.assign "=" (.id "x") (.binop "+" (.id "y") (.id "y"))]))]
+private def progB : Node := fnP ["x", "y", "unused"] [.doWhile (.binop "<" (.id "x") (.const "int" "10"))
+  (.compound (some [.label "L"
+    (.assign "=" (.id "x") (.cast (.binop "+" (.cast (.id "y")) (.id "y"))))]))]
+private def progC : Node := fnP ["y", "x"] [.while_ (.binop "<" (.id "y") (.const "int" "10"))
+  (.compound (some [.assign "=" (.id "y") (.binop "+" (.id "x") (.id "x"))]))]
+private def readingA : Cmd := .seq [.while_ (.seq [.bin "+" "x" (.var "y") (.var "y")])]
+
+private theorem swapXY_injective : Function.Injective swapXY := by
+  have inv : ∀ s, swapXY (swapXY s) = s := by
+    intro s
+    unfold swapXY
+    by_cases h1 : s = "x"
+    · subst h1; decide
+    · by_cases h2 : s = "y"
+      · subst h2; decide
+      · simp [h1, h2]
+  intro a b h
+  rw [← inv a, ← inv b, h]
+
+example : Refine.FuncOk progA = true ∧ Refine.FuncOk progB = true ∧ Refine.FuncOk progC = true := by
+  decide
+example : desugarFunc progA = some readingA ∧ desugarFunc progB = some readingA := ⟨by rfl, by rfl⟩
+example : desugarFunc progC = some (readingA.rename swapXY) := by rfl
+example : Syntax.variables progA = .ok ["x", "y"] ∧ Syntax.variables progB = .ok ["unused", "x", "y"] ∧
+    Syntax.variables progC = .ok ["x", "y"] := by decide
+-- (1) instantiated: the while loop analysed with early stop, the do-while run to completion
+example : ∃ r1 r2, Analysis.func progA true = .ok r1 ∧ Analysis.func progB false = .ok r2 ∧
+    r1.infinite = r2.infinite :=
+  (verdict_depends_only_on_reading progA progB (by decide) (by decide) readingA (by rfl) (by rfl)
+    true false).2
+-- (2) instantiated
+example : ∃ r1 r2, Analysis.func progA true = .ok r1 ∧ Analysis.func progC true = .ok r2 ∧
+    r1.infinite = r2.infinite :=
+  (verdict_invariant_under_renaming swapXY swapXY_injective progA progC (by decide) (by decide)
+    readingA (by rfl) (by rfl) ["x", "y"] ["x", "y"] (by decide) (by decide) (by decide) true true).2
+-- the common verdict is "finite", with different reported variable lists
+example : (Analysis.func progA true).toOption.map (fun r => (r.infinite, r.variables)) = some (false, ["x", "y"]) ∧
+    (Analysis.func progB false).toOption.map (fun r => (r.infinite, r.variables))
+      = some (false, ["unused", "x", "y"]) := by decide
 
 end Mwp.Props.C12
